@@ -25,7 +25,7 @@ Open Scope N_scope.
 
 (* ---- the regenerated literals are the ones the model was written against ---- *)
 Theorem C14_needs_quotes_regex_unchanged :
-  needs_quotes_regex = [94; 92; 100; 43; 92; 46; 63; 92; 100; 42; 36].   (* ^\d+\.?\d*$ *)
+  needs_quotes_regex = [94; 91; 92; 100; 43; 92; 45; 46; 93].   (* ^[\d+\-.] *)
 Proof. reflexivity. Qed.
 Print Assumptions C14_needs_quotes_regex_unchanged.
 
@@ -43,39 +43,42 @@ Proof. exact (fun p w H => str_match_yn p (to_lower_pat p) w (to_lower_pat_yn p 
 Print Assumptions C14_yesno_pattern_is_tl.
 
 (* ---- defined(V) && !empty(V...)  ->  !empty(V...) ---- *)
-(* full statement: whatever the modifiers *)
-Theorem C14_and_refuted : ~ and_full.
-Proof. exact and_full_refuted. Qed.
-Print Assumptions C14_and_refuted.
-
-(* guard: no :U<non-empty default> among the modifiers *)
-Theorem C14_and_partial : forall cs rw e,
+(* full statement, whatever the modifiers: checkAnd leaves conditions with a :U... alone *)
+Theorem C14_and_equivalent : forall cs rw e,
   In rw (check_and cs) ->
   exists v ms, cs = [MDefined v; MNot (MEmpty v ms)] /\
     rw_from rw = s_defined_lp ++ v ++ s_rp_and /\ rw_to rw = [] /\
-    (forallb keeps_empty (map classify_mod ms) = true ->
-     equivalent e (CAnd (CDefined v) (CNot (CEmpty v (map classify_mod ms))))
-                  (CNot (CEmpty v (map classify_mod ms)))).
-Proof. exact and_rewrite_partial. Qed.
-Print Assumptions C14_and_partial.
+    equivalent e (CAnd (CDefined v) (CNot (CEmpty v (map classify_mod ms))))
+                 (CNot (CEmpty v (map classify_mod ms))).
+Proof. exact and_rewrite_equivalent. Qed.
+Print Assumptions C14_and_equivalent.
 
 (* ---- [!]empty(V:Mword) / [!]${V:Mword} / :N  ->  ${V[:U]} ==|!= word ---- *)
-(* full statement (admitted values only, no guard on pattern or value): false,
-   for three independent reasons *)
-Theorem C14_word_refuted_N_empty_value : ~ word_full.          (* ${V:Nfoo}, V = ""   *)
+(* the :M form: full statement, for every admitted value, no guard *)
+Theorem C14_word_M_preserves : forall cx v mods fe neg rw e,
+  In rw (simplify_word cx v mods fe neg) ->
+  (exists pat, last mods [] = 77 :: pat) ->
+  exists f t, rw_from_c rw = Some f /\ rw_to_c rw = Some t /\
+    ((is_defined (cx_seen_prefs cx) (cx_var cx v) = true -> e v <> None) ->
+     (forall d s, eval_expr e v (map classify_mod (removelast mods)) = Some (d, s) -> wordlike s) ->
+     preserves e f t).
+Proof. exact word_rewrite_M_preserves. Qed.
+Print Assumptions C14_word_M_preserves.
+
+(* a pattern that simplifyWord leaves unquoted is not a number *)
+Theorem C14_unquoted_literal_not_number : forall pat,
+  numeric_head pat = false -> forallb (in_set lit_pattern_set) pat = true -> pat <> [] ->
+  try_parse_number pat = None.
+Proof. exact numeric_head_false_not_number. Qed.
+Print Assumptions C14_unquoted_literal_not_number.
+
+(* the :N form: the full statement is still false (${V:Nfoo}, V = "") ... *)
+Theorem C14_word_refuted_N_empty_value : ~ word_full.
 Proof. exact word_full_refuted. Qed.
 Print Assumptions C14_word_refuted_N_empty_value.
 
-Theorem C14_word_refuted_numeric_literal : ~ word_full.        (* ${V:M1e1}, V = "10" *)
-Proof. exact word_full_refuted_numeric_literal. Qed.
-Print Assumptions C14_word_refuted_numeric_literal.
-
-Theorem C14_word_refuted_bare_zero : ~ word_full.              (* ${V:M0},   V = "0"  *)
-Proof. exact word_full_refuted_bare_zero. Qed.
-Print Assumptions C14_word_refuted_bare_zero.
-
-(* with the guards word_guards (G1 literal compared as a string, G2 the bare form
-   is not testing a number zero, G3 :N only on a non-empty, non-zero value) *)
+(* ... and holds with the guard: with :N the value is neither empty nor, in the
+   bare form, a number zero *)
 Theorem C14_word_partial : forall cx v mods fe neg rw e,
   In rw (simplify_word cx v mods fe neg) ->
   exists f t pat (positive : bool),
@@ -83,38 +86,23 @@ Theorem C14_word_partial : forall cx v mods fe neg rw e,
     last mods [] = (if positive then 77 else 78) :: pat /\
     ((is_defined (cx_seen_prefs cx) (cx_var cx v) = true -> e v <> None) ->
      (forall d s, eval_expr e v (map classify_mod (removelast mods)) = Some (d, s) -> wordlike s) ->
-     word_guards e v fe positive pat ->
+     word_N_guard e v fe positive ->
      preserves e f t).
 Proof. exact word_rewrite_partial. Qed.
 Print Assumptions C14_word_partial.
 
-(* ---- :M[yY][eE][sS] -> :tl} == yes ---- *)
-Theorem C14_yesno_refuted : ~ yesno_full.                      (* ${V:N[yY][eE][sS]}, V = "" *)
-Proof. exact yesno_full_refuted. Qed.
-Print Assumptions C14_yesno_refuted.
-
-Theorem C14_yesno_partial : forall cx v mods fe neg rw e,
+(* ---- :M[yY][eE][sS] / :N[yY][eE][sS] -> :tl} == yes / != yes ---- *)
+(* full statement; "NonemptyIfDefined is right" joins "isDefined is right" *)
+Theorem C14_yesno_preserves : forall cx v mods fe neg rw e,
   In rw (fst (simplify_yesno cx v mods fe neg)) ->
-  exists f t pat (positive : bool),
+  exists f t,
     rw_from_c rw = Some f /\ rw_to_c rw = Some t /\
-    last mods [] = (if positive then 77 else 78) :: pat /\
     ((is_defined (cx_seen_prefs cx) (cx_var cx v) = true -> e v <> None) ->
-     (forall d s, eval_expr e v (map classify_mod (removelast mods)) = Some (d, s) -> wordlike s) ->
-     (positive = false -> forall s, e v = Some s -> s <> [] /\ (fe = false -> truthy s false = true)) ->
-     preserves e f t).
-Proof. exact yesno_rewrite_partial. Qed.
-Print Assumptions C14_yesno_partial.
-
-(* the :M form needs no guard: it holds for every admitted value *)
-Theorem C14_yesno_M_preserves : forall cx v mods fe neg rw e,
-  In rw (fst (simplify_yesno cx v mods fe neg)) ->
-  (exists pat, last mods [] = 77 :: pat) ->
-  exists f t, rw_from_c rw = Some f /\ rw_to_c rw = Some t /\
-    ((is_defined (cx_seen_prefs cx) (cx_var cx v) = true -> e v <> None) ->
+     (vi_nonempty_if_defined (cx_var cx v) = true -> e v <> Some []) ->
      (forall d s, eval_expr e v (map classify_mod (removelast mods)) = Some (d, s) -> wordlike s) ->
      preserves e f t).
-Proof. exact yesno_rewrite_M_preserves. Qed.
-Print Assumptions C14_yesno_M_preserves.
+Proof. exact yesno_rewrite_preserves. Qed.
+Print Assumptions C14_yesno_preserves.
 
 (* ---- [!]empty(V:Mpat) -> [!]${V:Mpat} [!= ""]  (any type, also lists) ---- *)
 (* The model takes mayMatchNumber(pat) from the real code.  Its "no" is used as
@@ -173,10 +161,6 @@ Proof. exact alpha_not_number. Qed.
 Print Assumptions C14_letters_not_number.
 
 (* ---- the hypotheses are satisfiable; the promise about mayMatchNumber is needed ---- *)
-Example C14_word_guards_satisfiable :
-  word_guards (env1 ex_var (Some ex_alpha)) ex_var true true ex_alpha.
-Proof. exact word_guards_satisfiable. Qed.
-
 (* !empty(V:Malpha) -> ${V} == alpha: true/true for V = alpha, false/false for V = b *)
 Example C14_word_example :
   (exists rw f t, simplify_word ex_cx ex_var ex_Malpha_mods true true = [rw] /\
@@ -201,3 +185,16 @@ Example C14_match_needs_the_promise :
     eval (env1 ex_var (Some [48; 120; 48; 46])) f = Some TTrue /\
     eval (env1 ex_var (Some [48; 120; 48; 46])) t = Some TFalse.
 Proof. exact match_needs_mmn_promise. Qed.
+
+(* the repaired cases: no rewrite is offered any more, or the literal is quoted *)
+Example C14_repaired_no_rewrite :
+  simplify_word ex_cx ex_var [[77; 48]] false true = []
+  /\ simplify_word ex_cx ex_var [[77; 49; 101; 49]] false true = []
+  /\ fst (simplify_yesno ex_cx ex_var [[78; 91; 121; 89; 93]] false true) = []
+  /\ check_and [MDefined ex_var; MNot (MEmpty ex_var [[85; 120]])] = [].
+Proof. exact repaired_no_rewrite. Qed.
+
+Example C14_repaired_quotes :
+  exists rw, simplify_word ex_cx ex_var [[77; 49; 101; 49]] true true = [rw] /\
+             rw_to rw = [36; 123; 86; 125; 32; 61; 61; 32; 34; 49; 101; 49; 34].
+Proof. exact repaired_quotes. Qed.
